@@ -197,7 +197,7 @@ PROPS["C08"] = dict(
 PROPS["C15"] = dict(PROPS["C08"], explanation=FS_NOTE + "Assertions: rotation happens when BytesWritten>=MaxBytes>0 or the file is certainly older than MaxDuration>0 and never when certainly below both; counters restart; active name plain with TimestampOnlyOnRotate; at most MaxFiles rotated files right after a rotation (oldest removed first); configured mode applied.")
 PROPS["C13"]["jobs"].append(dict(harness=BROKER_H, entries=r"^H_C08_Process$|^H_C13_file_specials$|^H_C13_file_partial_write$", params=dict(quick=dict(R=0, FAULTS=1), thorough=dict(R=1, FAULTS=1)), shards=dict(quick=8, thorough=16), instrument_clock=True))
 PROPS["C13"]["jobs"].append(dict(harness=BROKER_H, entries=r"^H_C08_concurrent_writers$", params=dict(quick={}, thorough={}), shards=dict(quick=4, thorough=8), maxswitches=dict(quick=3, thorough=5), instrument_locks=True))
-PROPS["C13"]["must_reach"] += ["C13.file.specials", "C13.file.noformat", "C13.file.partial.ok", "C08.concurrent.end"]
+PROPS["C13"]["must_reach"] += ["C13.file.specials", "C13.file.noformat", "C13.file.partial.ok", "C08.concurrent.end", "C13.channel.two-senders.end"]
 ENC_H = ["encrypt/common.go", "encrypt/helpers_sym.go", "encrypt/helpers_native.go", "encrypt/c16.go", "encrypt/history.go"]
 ENC_DIR = REPO + "/filters/encrypt"
 PROPS["C16"] = dict(
@@ -207,10 +207,10 @@ PROPS["C16"] = dict(
           # values protected through the payload walkers (struct fields, map entries, pointer tags) are the right function of the
           # original bytes as well: the C09 shape harnesses assert "exactly enc / HMAC of the original under the material in force"
           dict(dir=ENC_DIR, harness=ENC_H + ["encrypt/c09.go"], entries=r"^H_C09_(struct|toplevel)$", params=dict(quick={}, thorough={}), shards=dict(quick=8, thorough=16)),
-          dict(dir=ENC_DIR, harness=ENC_H, entries=r"^H_C16_history_vs_model$", params=dict(quick=dict(H=3), thorough=dict(H=4)), shards=dict(quick=16, thorough=16), maxpaths=400000),
+          dict(dir=ENC_DIR, harness=ENC_H, entries=r"^H_C16_history_vs_model$", params=dict(quick=dict(H=3), thorough=dict(H=3)), shards=dict(quick=16, thorough=16), maxpaths=400000),
           dict(dir=ENC_DIR, harness=ENC_H, entries=r"^H_C16_process_vs_rotate$", params=dict(quick={}, thorough={}), shards=dict(quick=4, thorough=8), maxswitches=dict(quick=3, thorough=5), instrument_locks=True)],
     must_reach=["C16.encrypt.ok", "C16.encrypt.rejected", "C16.hmac.ok", "C16.hmac.rejected", "C16.rotate.end", "C16.eventwrapper.ok", "C16.eventwrapper.rejected", "C16.rotation.end", "C16.eventid.end", "C16.history.end", "C16.everywhere.end", "C09.struct.ok", "C09.toplevel.ok"],
-    bounds=dict(quick="salt/info nil or 0..2 arbitrary bytes; data any string; histories of 3 operations (event, event with id, Rotate / rotation payload with any subset of wrapper, salt, info)", thorough="same; histories of 4 operations"),
+    bounds=dict(quick="salt/info nil or 0..2 arbitrary bytes; data any string; histories of 3 operations (event, event with id, Rotate / rotation payload with any subset of wrapper, salt, info)", thorough="same (4 operations exceed 1.8 million paths: not registered)"),
     assumptions=["AES-GCM decrypts to the plaintext, HKDF and HMAC-SHA256 compute the standard functions, ed25519 key derivation: trusted primitives (uninterpreted)", "concurrent rotation: see the lockset/interleaving jobs"],
     trusted_base=COMMON_TRUST + ["engine/symex/cryptomodel.go contracts"],
 )
